@@ -1072,7 +1072,15 @@ func r117(c *Ctx, r *R) {
 	var trailerName string
 	if srv != nil {
 		announced, setOnErr := false, false
-		for _, ci := range findCalls(srv, false, "(net/http.Header).Set") {
+		// in the handler or in the helper it hands the streaming case to
+		var sets, whs []ssa.CallInstruction
+		for _, dc := range findCallsDeep(srv, "(net/http.Header).Set") {
+			sets = append(sets, dc.Inner)
+		}
+		for _, dc := range findCallsDeep(srv, "net/http.ResponseWriter).WriteHeader") {
+			whs = append(whs, dc.Inner)
+		}
+		for _, ci := range sets {
 			a := callArgs(ci.Common())
 			k0, ok0 := constOf(a[0])
 			if !ok0 || k0 == nil || k0.Kind() != constant.String {
@@ -1082,7 +1090,10 @@ func r117(c *Ctx, r *R) {
 				if k1, ok1 := constOf(a[1]); ok1 && k1 != nil && k1.Kind() == constant.String {
 					trailerName = constant.StringVal(k1)
 					// before the status line is written
-					for _, wh := range findCalls(srv, false, "net/http.ResponseWriter).WriteHeader") {
+					for _, wh := range whs {
+						if wh.Parent() != ci.Parent() {
+							continue
+						}
 						if wh.Block() == ci.Block() && dominatesInstr(ci, wh) || ci.Block().Dominates(wh.Block()) && ci.Block() != wh.Block() {
 							announced = true
 						}
@@ -1090,7 +1101,7 @@ func r117(c *Ctx, r *R) {
 				}
 			}
 		}
-		for _, ci := range findCalls(srv, false, "(net/http.Header).Set") {
+		for _, ci := range sets {
 			a := callArgs(ci.Common())
 			if k0, ok0 := constOf(a[0]); ok0 && k0 != nil && k0.Kind() == constant.String && constant.StringVal(k0) == trailerName && trailerName != "" {
 				if guardedBy(ci.Block(), func(g Guard) bool {
